@@ -22,6 +22,29 @@ def cb(b):
 
 
 # ------------------------------------------------------------------------------------------
+def reuse_probe(call, arrays):
+    """call(*arrays) on float64 ndarrays that the caller keeps: the arrays must not be modified, and the same call on the same
+    arrays must give the same result again (a function that writes into its inputs fails one or the other).  Returns
+    (result of the first call, notes)."""
+    held = [a.copy() for a in arrays]
+    first = call(*held)
+    notes = {"input_mutated": not all(np.array_equal(h, a) for h, a in zip(held, arrays))}
+    try:
+        second = call(*held)
+        flat = lambda r: [np.asarray(v, dtype=float).tolist() for v in (r if isinstance(r, tuple) else (r,))]
+        notes["second_call_differs"] = flat(first) != flat(second)
+    except Exception as e:   # noqa: BLE001
+        notes["second_call_differs"] = "raised %s" % type(e).__name__
+    return first, notes
+
+
+def reuse_failures(o, fail):
+    if o.get("input_mutated"):
+        fail("input-mutated", "an array handed in by the caller was modified")
+    if o.get("second_call_differs"):
+        fail("second-call", "the same call on the same arrays gave another result the second time (%s)" % o["second_call_differs"])
+
+
 class RepeatUnit(Unit):
     name = "repeat"
     imports = ["Model.Process"]
@@ -42,6 +65,16 @@ class RepeatUnit(Unit):
             N = rng.randint(3, 8)
             cases.append({"x": gens.loose_x(rng, N), "y": gens.values(rng, N), "r": rng.randint(1, 4), "int": False})
         cases.append({"x": [0.0, 1e-9, 3e-9, 7e-9, 8e-9, 11e-9], "y": gens.values(rng, 6), "r": 3, "int": False})
+        # integer abscissae held in a narrow integer type (hour of day as uint8, second of hour as int16): the extended range
+        # leaves the type's range long before it leaves the range of floats
+        for dt, top in (("uint8", 24), ("int8", 24), ("int16", 3600), ("uint16", 3600), ("int32", 86400)):
+            for _ in range(2 if tier == "quick" else 10):
+                N = rng.randint(3, 8)
+                xs = sorted(rng.sample(range(0, top), N))
+                period = xs[-1] - xs[0] + (xs[-1] - xs[-2])
+                lim = {"uint8": 255, "int8": 127, "int16": 32767, "uint16": 65535, "int32": 2 ** 31 - 1}[dt]
+                r = min(12, lim // max(period, 1) + 2) if dt != "int32" else rng.randint(2, 6)
+                cases.append({"x": [float(v) for v in xs], "y": gens.values(rng, N), "r": max(2, r), "int": True, "x_dtype": dt})
         # composition cases
         for a in range(1, 5):
             for b in range(1, 13 // a):
@@ -52,7 +85,7 @@ class RepeatUnit(Unit):
 
     def run(self, c):
         from traffic_weaver.process import repeat
-        dt = np.int64 if c.get("int") else float
+        dt = np.dtype(c["x_dtype"]) if c.get("x_dtype") else (np.int64 if c.get("int") else float)
         x = np.array(c["x"], dtype=dt)
         y = np.array(c["y"], dtype=float)
         x0, y0 = x.copy(), y.copy()
@@ -160,10 +193,11 @@ class TrendUnit(Unit):
         y = np.array(c["y"], dtype=float)
         try:
             if c["linear"]:
-                rx, ry = linear_trend(x.copy(), y.copy(), c["coef"][1], c["normalized"])
+                (rx, ry), notes = reuse_probe(lambda a, b: linear_trend(a, b, c["coef"][1], c["normalized"]), [x, y])
             else:
-                rx, ry = trend(x.copy(), y.copy(), poly(c["coef"]), c["normalized"])
+                (rx, ry), notes = reuse_probe(lambda a, b: trend(a, b, poly(c["coef"]), c["normalized"]), [x, y])
             out = {"x": rx.tolist(), "y": ry.tolist()}
+            out.update(notes)
             if "coef2" in c:
                 a1x, a1y = trend(rx.copy(), ry.copy(), poly(c["coef2"]), c["normalized"])
                 both = [a + b for a, b in zip(c["coef"] + [0] * 4, c["coef2"] + [0] * 4)]
@@ -202,6 +236,7 @@ class TrendUnit(Unit):
             fail("zero-trend", "zero trend is not the identity")
         if "seq_y" in o and not close(o["seq_y"], o["sum_y"]):
             fail("additive", "trend f then g differs from trend (f+g)")
+        reuse_failures(o, fail)
         return F
 
     def label(self, c, o):
@@ -229,8 +264,10 @@ class NormalizeUnit(Unit):
         try:
             with warnings.catch_warnings():
                 warnings.simplefilter("ignore")
-                r = normalize(np.array(c["a"], dtype=float), c["lo"], c["hi"])
-            return {"out": r.tolist()}
+                r, notes = reuse_probe(lambda a_: normalize(a_, c["lo"], c["hi"]), [np.array(c["a"], dtype=float)])
+            out = {"out": r.tolist()}
+            out.update(notes)
+            return out
         except Exception as e:
             return {"exc": exn_name(e)}
 
@@ -249,8 +286,10 @@ class NormalizeUnit(Unit):
         if "exc" in o:
             fail("raises", o["exc"])
             return F
+        reuse_failures({k: v for k, v in o.items() if k == "input_mutated"}, fail)
         if max(a) == min(a):
             return F  # undefined by design (0/0)
+        reuse_failures(o, fail)
         out = o["out"]
         if len(out) != len(a):
             fail("length", "length changed")
@@ -314,8 +353,10 @@ Definition tr_match (tol : Qc) (m : res (list Qc * list Qc)) (o : obs (list Qc *
         x = np.array(c["x"], dtype=float)
         y = np.array(c["y"], dtype=float)
         try:
-            rx, ry = truncate(x, y, c["l"], c["r"], c["lr"], c["rr"])
-            return {"x": rx.tolist(), "y": ry.tolist()}
+            (rx, ry), notes = reuse_probe(lambda a, b: truncate(a, b, c["l"], c["r"], c["lr"], c["rr"]), [x, y])
+            out = {"x": rx.tolist(), "y": ry.tolist()}
+            out.update(notes)
+            return out
         except Exception as e:
             return {"exc": exn_name(e)}
 
@@ -348,6 +389,7 @@ Definition tr_match (tol : Qc) (m : res (list Qc * list Qc)) (o : obs (list Qc *
         j = min(highs) if highs else len(x) - 1
         if o["x"] != x[i:j + 1] or o["y"] != y[i:j + 1]:
             fail("covering-run", "kept %s, expected the smallest covering run %s" % (o["x"], x[i:j + 1]))
+        reuse_failures(o, fail)
         return F
 
     def label(self, c, o):
@@ -412,8 +454,14 @@ class InterpUnit(Unit):
                 else list(c["new_x"]) if gk == "floatlist" else np.array(c["new_x"], dtype=float))
         xin = np.array(c["x"], dtype=np.int64 if c.get("x_kind") == "int64" else float)
         try:
-            r = interpolate(xin, np.array(c["y"], dtype=float), grid, method=c["method"], **kw)
-            return {"out": np.asarray(r, dtype=float).tolist()}
+            if c.get("x_kind") == "int64":
+                r = interpolate(xin, np.array(c["y"], dtype=float), grid, method=c["method"], **kw)
+                notes = {}
+            else:
+                r, notes = reuse_probe(lambda a, b: interpolate(a, b, grid, method=c["method"], **kw), [xin, np.array(c["y"], dtype=float)])
+            out = {"out": np.asarray(r, dtype=float).tolist()}
+            out.update(notes)
+            return out
         except Exception as e:
             return {"exc": exn_name(e)}
 
@@ -439,6 +487,7 @@ class InterpUnit(Unit):
         if len(out) != len(nx):
             fail("length", "wrong length")
             return F
+        reuse_failures(o, fail)
         for v, r in zip(nx, out):
             if c["method"] == "constant":
                 lows = [i for i in range(len(x)) if x[i] <= v]
